@@ -23,6 +23,8 @@ func presets() []scenarioOpts {
 		{NVals: 3, Powers: []int64{20, 20, 20}, Galaxias: "genesis", Heights: 8, Replicas: []repCfg{all[1], all[0], all[3], all[5]}, ValHook: true},
 		{NVals: 3, Powers: []int64{20, 30, 40}, Galaxias: "never", Heights: 8, Replicas: four, Staking: true, Reopen: true},
 		{NVals: 2, Powers: []int64{20, 20}, Galaxias: "genesis", Heights: 8, Replicas: four, Staking: true},
+		{NVals: 4, Powers: []int64{20, 20, 20, 20}, Galaxias: "never", Heights: 7, Replicas: four, Evidence: true, Reopen: true},
+		{NVals: 4, Powers: []int64{40, 20, 30, 20}, Galaxias: "genesis", Heights: 7, Replicas: four, Evidence: true},
 	}
 }
 
